@@ -10,6 +10,7 @@ import XotModel.Lemmas.ForestBasic
 import XotModel.Lemmas.FmapMove
 import XotModel.Lemmas.FmapHistPos
 import XotModel.Lemmas.FmapHistSer
+import XotModel.Model.ValueAccess
 
 namespace XotModel.Props
 open XotModel
@@ -521,6 +522,20 @@ theorem C11_order (f : Forest) (e : Nat) (t : HTree) (h : f.get? e = some t) :
   unfold absNs absAttrs Fmap.abs
   rw [h]
   exact ⟨nsDecls_erase t, attrs_erase t⟩
+
+/-- The accessor shortcuts of access.rs.  `get_attribute(n, name)` is `attributes(n).get(name)`,
+    `get_namespace(n, prefix)` is `namespaces(n).get(prefix)`, `namespace_declarations(n)` is
+    `namespaces(n).iter()` collected: for a forest element whose erasure sits at path `p` of a
+    tree `T`, they are the lookups in / the list of the reference views (`absAttrs`, `absNs`). -/
+theorem C11_get_attribute (f : Forest) (e : Nat) (t : HTree) (h : f.get? e = some t)
+    (T : Tree) (p : Path) (hrel : T.at? p = some (HTree.erase t)) (name pfx : Nat) :
+    Axes.getAttribute T p name = (absAttrs f e).lookup name ∧
+    Axes.getNamespace T p pfx = (absNs f e).lookup pfx ∧
+    Axes.namespaceDeclarations T p = absNs f e := by
+  obtain ⟨hn, ha⟩ := C11_order f e t h
+  have hs : Axes.subAt T p = HTree.erase t := by simp [Axes.subAt, hrel]
+  simp [Axes.getAttribute, Axes.getNamespace, Axes.namespaceDeclarations, Tree.getAttribute,
+    Tree.getNamespace, hs, hn, ha]
 
 /-! ### Non-vacuity -/
 
